@@ -7,6 +7,7 @@ import (
 	"go/ast"
 	"go/constant"
 	"go/types"
+	"golang.org/x/tools/go/packages"
 	"sort"
 	"strings"
 )
@@ -683,20 +684,14 @@ func c11Plumbing(p *Prog, r *Report, rule string) {
 			r.Undecided(rule, ik, "", "interceptor not found")
 			continue
 		}
-		info := fi.Pkg.TypesInfo
-		reads, stores := false, false
-		ast.Inspect(fi.Decl.Body, func(x ast.Node) bool {
-			if c, ok := x.(*ast.CallExpr); ok {
-				if sel, ok := c.Fun.(*ast.SelectorExpr); ok && sel.Sel.Name == "Get" && len(c.Args) == 1 &&
-					exprObjKey(info, c.Args[0]) == "internal/utils/grpc/interceptors/server.TxIdKey" {
-					reads = true
-				}
-				if p.callIs(fi.Pkg, c, "internal/model.StoreTxId") {
-					stores = true
-				}
-			}
-			return true
-		})
+		// directly or in a helper of the interceptor package
+		readsKey := callPred{name: "md.Get(TxIdKey)", fn: func(pkg *packages.Package, c *ast.CallExpr) bool {
+			sel, ok := c.Fun.(*ast.SelectorExpr)
+			return ok && sel.Sel.Name == "Get" && len(c.Args) == 1 &&
+				exprObjKey(pkg.TypesInfo, c.Args[0]) == "internal/utils/grpc/interceptors/server.TxIdKey"
+		}}
+		reads := p.funcCalls(fi, readsKey, false)
+		stores := p.funcCalls(fi, p.keysPred("internal/model.StoreTxId"), false)
 		r.Check(reads && stores, rule, ik, p.pos(fi.Decl), "reads md[TxIdKey], stores with model.StoreTxId", "interceptor does not move the metadata transaction id into the context")
 	}
 	if an := p.Func("internal/app.New"); an != nil {
@@ -1033,34 +1028,62 @@ func c11Handlers(p *Prog, r *Report) {
 	for _, k := range handlerKeys(p) {
 		fi := p.Funcs[k]
 		info := fi.Pkg.TypesInfo
+		// helpers of the handler are spliced in: their returns are the handler's returns
+		f := p.FlatInl(fi)
+		// adapted: the expression is adapter Error(...) of a class-carrying value, or a variable whose every reaching
+		// assignment is (nil assignments aside)
+		var adapted func(node int, e ast.Expr, depth int) (bool, string)
+		adapted = func(node int, e ast.Expr, depth int) (bool, string) {
+			e = ast.Unparen(e)
+			if isNilIdent(info, e) {
+				return true, ""
+			}
+			if c, isCall := e.(*ast.CallExpr); isCall && p.callIs(fi.Pkg, c, kAdErr) {
+				if len(c.Args) == 1 {
+					if ac, ok := ast.Unparen(c.Args[0]).(*ast.CallExpr); ok && isFunc(info, ac, "fmt", "Errorf") {
+						if !strings.HasPrefix(valueKey(info, ac), "wrap:") {
+							return false, "the handler wraps the usecase error without %w before adapting it: the class is lost on the wire"
+						}
+					}
+				}
+				return true, ""
+			}
+			if o := objOf(info, e); o != nil && depth < 4 {
+				defs := f.ReachingDefs(node, o)
+				if len(defs) == 0 {
+					return false, ""
+				}
+				for _, d := range defs {
+					if d.Rhs == nil {
+						return false, ""
+					}
+					if ok, why := adapted(d.Node, d.Rhs, depth+1); !ok {
+						return false, why
+					}
+				}
+				return true, ""
+			}
+			return false, ""
+		}
 		i := 0
-		walkNoLit(fi.Decl.Body, func(x ast.Node) bool {
-			rs, ok := x.(*ast.ReturnStmt)
-			if !ok || len(rs.Results) == 0 {
-				return true
+		for _, id := range f.ReturnNodes() {
+			rs := f.returnStmt(id)
+			if rs == nil || len(rs.Results) == 0 {
+				continue
 			}
 			last := rs.Results[len(rs.Results)-1]
 			if isNilIdent(info, last) {
-				return true
+				continue
 			}
 			n++
 			i++
 			cons := fmt.Sprintf("%s#error-return/%d", k, i)
-			c, isCall := ast.Unparen(last).(*ast.CallExpr)
-			good := isCall && p.callIs(fi.Pkg, c, kAdErr)
-			if good && len(c.Args) == 1 {
-				// the adapted value must carry an error class: an error variable wrapped with %w, or a sentinel
-				a := c.Args[0]
-				if ac, ok := ast.Unparen(a).(*ast.CallExpr); ok && isFunc(info, ac, "fmt", "Errorf") {
-					if !strings.HasPrefix(valueKey(info, ac), "wrap:") {
-						r.Viol("C11.e", cons, p.pos(rs), "the handler wraps the usecase error without %w before adapting it: the class is lost on the wire")
-						return true
-					}
-				}
+			good, why := adapted(id, last, 0)
+			if why == "" {
+				why = "handler returns an error that did not pass adapter Error: the client receives no typed detail"
 			}
-			r.Check(good, "C11.e", cons, p.pos(rs), "adapter Error(...)", "handler returns an error that did not pass adapter Error: the client receives no typed detail")
-			return true
-		})
+			r.Check(good, "C11.e", cons, p.pos(last), "adapter Error(...)", why)
+		}
 	}
 	r.Floor("C11.e", "handler-error-returns", n, 13)
 }
@@ -1079,16 +1102,7 @@ func c11Framing(p *Prog, r *Report) {
 		hdr := f.Match(func(n *GNode) bool {
 			for _, c := range callsIn(n.Ast, false) {
 				if sel, ok := c.Fun.(*ast.SelectorExpr); ok && sel.Sel.Name == "Send" {
-					found := false
-					ast.Inspect(c, func(x ast.Node) bool {
-						if cl, ok := x.(*ast.CompositeLit); ok {
-							if tv, ok := info.Types[cl]; ok && strings.Contains(tv.Type.String(), "SetFileRequest_Header") {
-								found = true
-							}
-						}
-						return true
-					})
-					if found {
+					if p.buildsType(fi.Pkg, c, "SetFileRequest_Header", 3) {
 						return true
 					}
 				}
@@ -1125,14 +1139,17 @@ func c11Framing(p *Prog, r *Report) {
 	// server buffer
 	if gf := p.Func("(*" + pkgDelivery + ".Service).GetFile"); gf != nil {
 		info := gf.Pkg.TypesInfo
-		ast.Inspect(gf.Decl.Body, func(x ast.Node) bool {
-			if c, ok := x.(*ast.CallExpr); ok {
+		// the handler with its helpers spliced in
+		for _, gn := range p.FlatInl(gf).Nodes {
+			if gn.Ast == nil {
+				continue
+			}
+			for _, c := range callsIn(gn.Ast, false) {
 				if id, ok := c.Fun.(*ast.Ident); ok && id.Name == "make" && len(c.Args) == 2 {
 					sizes = append(sizes, valueKey(info, c.Args[1]))
 				}
 			}
-			return true
-		})
+		}
 	}
 	same := len(sizes) >= 3
 	for _, s := range sizes {
